@@ -63,6 +63,7 @@ def run_ops(rolllog, clock, tmp, spec, stats, k):
     clock.t = rh.T0 + 1
     clock.went_back = clock.repeated = False
     w = rh.World(rolllog, clock, d, spec['mode'], spec['fs'], spec['ts'], stats)
+    w.reader_fs = spec.get('rfs')        # file_size a reader object happens to be constructed with (writer-side setting)
     tells = {}
     try:
         w.open_writer()
@@ -164,7 +165,7 @@ def gen_random(rng):
             ops.append(['reopen'])
         else:
             ops.append(['unlink', rng.randrange(6)])
-    return {'mode': mode, 'fs': fs, 'ts': ts, 'ops': ops, 'hostile': hostile}
+    return {'mode': mode, 'fs': fs, 'ts': ts, 'ops': ops, 'hostile': hostile, 'rfs': rng.choice([None, None, 1, max(1, fs // 2), fs, fs * 4])}
 
 
 CORE = {
